@@ -563,7 +563,7 @@ impl Buffer {
     pub fn get_first_editable_line(&self) -> i32 {
         if self.is_terminal_buffer {
             if let Some((start, _)) = self.terminal_state.get_margins_top_bottom() {
-                return self.get_first_visible_line() + start;
+                return self.get_first_visible_line().saturating_add(start);
             }
         }
         self.get_first_visible_line()
@@ -596,7 +596,7 @@ impl Buffer {
     pub fn get_last_editable_line(&self) -> i32 {
         if self.is_terminal_buffer {
             if let Some((_, end)) = self.terminal_state.get_margins_top_bottom() {
-                self.get_first_visible_line() + end
+                self.get_first_visible_line().saturating_add(end)
             } else {
                 (self.get_first_visible_line() + self.get_height()).saturating_sub(1)
             }
